@@ -383,6 +383,14 @@ class Exec:
     def ev(self, node):
         """rvalue of an expression"""
         k = node.get('kind')
+        if k == 'ConstantExpr' and 'value' in node:
+            v = node['value']
+            if v in ('true', 'false'):
+                return z3.BoolVal(v == 'true')
+            try:
+                return z3.IntVal(int(v))
+            except ValueError:
+                pass
         m = getattr(self, 'ev_' + k, None)
         if m is None:
             if k in TRANSPARENT:
